@@ -2,9 +2,10 @@ SPECIFICATION Spec
 CONSTANTS
   L = 2
   Rewards = {0, 1, 3}
+  Episodes = {0, 1, 2}
 INVARIANT LogAccounting
 INVARIANT LogStableBetweenEnds
 INVARIANT AutoResetSemantics
 INVARIANT MomentsOfEverythingSeen
-INVARIANT Emit
+INVARIANT ScheduleInForce
 CHECK_DEADLOCK FALSE
